@@ -10,8 +10,8 @@ type tree = I of string | L of tree list
 let parse (s : string) : tree =
   let n = SS.length s in
   let pos = ref 0 in
-  let peek () = if !pos < n then s.[!pos] else '\000' in
-  let rec skip () = if !pos < n && (s.[!pos] = ' ' || s.[!pos] = '\t') then (incr pos; skip ()) in
+  let peek () = if !pos < n then (SS.get s (!pos)) else '\000' in
+  let rec skip () = if !pos < n && ((SS.get s (!pos)) = ' ' || (SS.get s (!pos)) = '\t') then (incr pos; skip ()) in
   let rec value () =
     skip ();
     match peek () with
@@ -33,7 +33,7 @@ let parse (s : string) : tree =
         end
     | _ ->
         let start = !pos in
-        while !pos < n && (let c = s.[!pos] in c = '-' || c = '0' || c = '1') do incr pos done;
+        while !pos < n && (let c = (SS.get s (!pos)) in c = '-' || c = '0' || c = '1') do incr pos done;
         if !pos = start then failwith (Printf.sprintf "parse: bad token at %d" start);
         I (SS.sub s start (!pos - start))
   in
@@ -50,16 +50,16 @@ let pos_of_bits (b : string) : BinNums.positive =
   (* b: binary, most significant first, first char '1' *)
   let p = ref BinNums.Coq_xH in
   for k = 1 to SS.length b - 1 do
-    p := (if b.[k] = '1' then BinNums.Coq_xI !p else BinNums.Coq_xO !p)
+    p := (if (SS.get b (k)) = '1' then BinNums.Coq_xI !p else BinNums.Coq_xO !p)
   done; !p
 
 let strip_zeros (b : string) : string =
   let k = ref 0 in
-  while !k < SS.length b && b.[!k] = '0' do incr k done;
+  while !k < SS.length b && (SS.get b (!k)) = '0' do incr k done;
   SS.sub b !k (SS.length b - !k)
 
 let z_of_bits (s : string) : BinNums.coq_Z =
-  let neg = SS.length s > 0 && s.[0] = '-' in
+  let neg = SS.length s > 0 && (SS.get s (0)) = '-' in
   let b = strip_zeros (if neg then SS.sub s 1 (SS.length s - 1) else s) in
   if b = "" then BinNums.Z0 else if neg then BinNums.Zneg (pos_of_bits b) else BinNums.Zpos (pos_of_bits b)
 
@@ -76,7 +76,7 @@ let bits_of_z (z : BinNums.coq_Z) : string = match z with
   | BinNums.Zpos p -> bits_of_pos p
   | BinNums.Zneg p -> "-" ^ bits_of_pos p
 
-let int_of_bits (s : string) : int = int_of_string ("0b" ^ (if s.[0] = '-' then failwith "negative nat" else s))
+let int_of_bits (s : string) : int = int_of_string ("0b" ^ (if (SS.get s (0)) = '-' then failwith "negative nat" else s))
 let rec bits_of_int (k : int) : string =
   if k < 0 then "-" ^ bits_of_int (-k) else if k = 0 then "0" else
   let rec go k acc = if k = 0 then acc else go (k / 2) ((if k land 1 = 1 then "1" else "0") ^ acc) in go k ""
@@ -187,6 +187,16 @@ let dispatch (cmd : string) (t : tree) : tree =
       (match Sched.executor_path f xs (r_list r_nat sigma) with
        | None -> L []
        | Some out -> L [w_list (fun r -> match r with None -> L [] | Some v -> L [w_z v]) out])
+  | "codec_tuple", [t] ->
+      (* returns [character codes of str(tuple), 1 if parsing the text gives the tuple back] *)
+      let l = r_list r_nat t in
+      let txt = Codec.show_tuple l in
+      let code (c : Ascii.ascii) = match c with
+        | Ascii.Ascii (b0, b1, b2, b3, b4, b5, b6, b7) ->
+            let b x k = if x then (1 lsl k) else 0 in
+            b b0 0 + b b1 1 + b b2 2 + b b3 3 + b b4 4 + b b5 5 + b b6 6 + b b7 7 in
+      let ok = (match Codec.parse_tuple txt with Some l' -> l' = l | None -> false) in
+      L [w_list (fun c -> w_int (code c)) txt; w_bool ok]
   | "shape_loop", [shapes] -> w_list w_nat (Shape.loop_shape (r_list r_shape shapes))
   | "shape_fmt_input", [l; s; data] -> w_list (w_list w_z) (Shape.fmt_input (r_shape l) (r_shape s) (r_list r_z data))
   | "shape_out", [l; o] -> w_list w_nat (Shape.fmt_output_shape (r_shape l) (r_shape o))
